@@ -90,7 +90,7 @@ class Shard:
 
     # -- workers ----------------------------------------------------
     def worker(self, profile="R", **kw):
-        key = (profile, tuple(sorted(kw.items())))
+        key = (profile, json.dumps(kw, sort_keys=True, default=str))
         w = self._workers.get(key)
         if w is None:
             w = worker.Worker(self.bins[profile], **kw)
@@ -262,6 +262,9 @@ def run_property(mod, tier, seed, replay=None):
         sh = Shard(prop, tier, seed, 0, 1, bins, 600, params)
         try:
             verdict = mod.replay(sh, payload)
+        except Exception:
+            # a payload shape the property's own replay does not know: use the round-level replay
+            verdict = "unknown (%s)" % traceback.format_exc().strip().split("\n")[-1]
         finally:
             sh.close()
         if not verdict.startswith(("violated", "held", "inconclusive")):
